@@ -348,6 +348,8 @@ pub fn base_scope() -> (Scope, Vars, Vec<FeelContext>) {
     ("lc", K::CtxList, "[{a: 1, b: 2}, {a: 2, b: 4}, {a: 3, b: 2}]", true),
     ("li", K::CtxList, "[{a: 1, item: 7}, {a: 9, item: 1}]", true),
     ("c1", K::Ctx, "{a: 5, b: \"x\"}", true),
+    // a list of contexts whose items have different keys (a key of a later item only is a name of the scope too)
+    ("lk", K::Any, "[{a: 1}, {a: 2, k2: 3}, {k3: {k4: 5}}]", true),
     ("nn", K::Any, "null", true),
     ("n1", K::Num, "3", true), // shadows the bottom binding
   ];
@@ -474,6 +476,16 @@ pub fn corpus() -> Vec<&'static str> {
     "{f: function(a, b) external {java: {class: \"c\", method signature: \"m\"}}, r: 1}.r",
     "[function(a) external {java: {class: \"c\", method signature: \"m\"}}, 2][2]",
     "{f: function() external {pmml: {document: \"d\", model: \"m\"}}, g: function(x) x + 1, r: g(2)}.r",
+    "lk[k2 - 1 > 0]",
+    "(for e in lk return e.k2 - 1)[2]",
+    "lk[k2 in [3, 4]]",
+    "lk[3].k3.k4 - 1",
+    "lk.k2",
+    "{up: 100, rows: [{up: 1}, {up: 2}], r: rows[2].up + up}.r",
+    "{up: 100, rows: [{up: 1}, {up: 2}], r: [rows[1].up, up, rows[-1].up, up]}.r",
+    "{\"net value\": 10, gross: net value * 2}.gross",
+    "{up: 100, inner: {up: null, echo: up}.echo}.inner",
+    "{up: 100, inner: {up: 1/0, echo: up}}.inner.echo",
     "for i in 1.0..3.00 return i",
     "for i in 1.5..3 return i",
     "for i in -1.0..1 return i",
@@ -517,10 +529,18 @@ pub fn run_with(cfg: &Cfg, property: &str) -> Report {
   let mut pair_cov: BTreeSet<(String, String)> = BTreeSet::new();
   let mut cases = vec![];
   let mut unparsable = 0u64;
-  for t in &texts {
+  let n_corpus = corpus().len();
+  for (ti, t) in texts.iter().enumerate() {
     match run_case(t, &ctxs, 8) {
       Some(c) => cases.push(c),
-      None => unparsable += 1,
+      None => {
+        unparsable += 1;
+        // every expression of the corpus is a well-formed expression over the base scope; generated ones are
+        // built from the typed grammar and parse as well (counted, not judged: names glued by the generator)
+        if ti < n_corpus {
+          rep.disagree(Kind::ImplVsSpec, "parse", "a well-formed expression of the corpus is rejected by the parser", t, "parse error", "a syntax tree");
+        }
+      }
     }
   }
   let reqs: Vec<String> = cases.iter().map(|c| c.request.clone()).collect();
